@@ -51,9 +51,10 @@ def preload():
 
 
 @contextlib.contextmanager
-def scratch(prefix="s"):
-    os.makedirs(SCRATCH_BASE, exist_ok=True)
-    d = tempfile.mkdtemp(prefix=f"{prefix}-{os.getpid()}-", dir=SCRATCH_BASE)
+def scratch(prefix="s", base=None):
+    base = base or SCRATCH_BASE
+    os.makedirs(base, exist_ok=True)
+    d = tempfile.mkdtemp(prefix=f"{prefix}-{os.getpid()}-", dir=base)
     try:
         yield Path(d)
     finally:
